@@ -398,6 +398,17 @@ func TestCheck(t *testing.T) {
 		}
 		r.Case("leaks/"+kind, func(c *h.Case) { leakCase(c, kind) })
 	}
+	for _, kind := range []string{"tcp", "unix", "udp", "ws"} {
+		kind := kind
+		r.Case("cancelled-before-send/"+kind, func(c *h.Case) { cancelledBeforeSend(c, kind) })
+	}
+	for _, kind := range []string{"tcp", "unix", "udp"} {
+		kind := kind
+		for _, m := range modes() {
+			m := m
+			r.Case(fmt.Sprintf("write-fails/%s/%s", kind, m.name), func(c *h.Case) { writeFails(c, kind, m) })
+		}
+	}
 	for _, f := range wsFaults() {
 		f := f
 		for _, m := range modes() {
@@ -511,6 +522,12 @@ func recoverCheck(c *h.Case, client *core.Client, sigBase string, rep map[string
 
 // quiesce: Abort, then no client goroutine and no pending entry may remain.
 func quiesce(c *h.Case, kind string, client *core.Client, sigBase string, rep map[string]interface{}, stillPending int) {
+	// every call has returned: its pending entry must be gone already, before Abort sweeps the tables
+	if hk := hooksFor(kind); hk != nil {
+		if conns, pending := hk.pending(); pending > stillPending {
+			c.Violation("pending-entries-remain:"+sigBase, fmt.Sprintf("%d pending-call entries remain on %d connections although every call has returned (before Abort)", pending, conns), rep)
+		}
+	}
 	client.Abort()
 	n, sample := settle()
 	if n > stillPending {
@@ -1513,4 +1530,99 @@ func abortMany(c *h.Case, kind string) {
 			r.Distinct(fmt.Sprintf("abort-many|%s|%d|%s", kind, n, how))
 		}
 	}
+}
+
+// cancelledBeforeSend: calls whose context is already done when they are issued, and calls
+// cancelled at once. They return the context's error and leave no pending entry.
+func cancelledBeforeSend(c *h.Case, kind string) {
+	r := c.R
+	hk := hooksFor(kind)
+	hk.reset()
+	markBaseline()
+	hk.setYield(nil)
+	p, err := healthyPeer(kind)
+	if err != nil {
+		r.Inconclusive(err.Error())
+		return
+	}
+	defer p.close()
+	client := core.NewClient(p.url)
+	rep := map[string]interface{}{"transport": kind}
+	ctx, _ := peer.Ctx(client, 3*time.Second)
+	if _, err := client.Request(ctx, []byte("warm up")); err != nil {
+		r.Inconclusive("warm-up failed: " + err.Error())
+		return
+	}
+	n := r.Pick(60, 600)
+	for i := 0; i < n; i++ {
+		base, _ := peer.Ctx(client, -1)
+		cctx, cancel := context.WithCancel(base)
+		if i%2 == 0 {
+			cancel()
+		} else {
+			go cancel()
+		}
+		ch := startCall(client, cctx, []byte("cancelled call"))
+		r.Eval(1)
+		if _, ok := await(ch, watchdog); !ok {
+			c.Violation("call-never-returned:"+kind+":cancelled-before-send", fmt.Sprintf("call %d with a cancelled context did not return", i), rep)
+			client.Abort()
+			return
+		}
+		cancel()
+	}
+	// answers to calls that were sent before the cancellation may still be on their way
+	time.Sleep(50 * time.Millisecond)
+	recoverCheck(c, client, kind+":cancelled-before-send", rep)
+	quiesce(c, kind, client, kind+":cancelled-before-send", rep, 0)
+	r.Distinct("cancelled-before-send|" + kind)
+}
+
+// brokenWriter is a connection whose writes fail while its read side stays quiet.
+type brokenWriter struct {
+	net.Conn
+}
+
+func (b *brokenWriter) Write(p []byte) (int, error) {
+	return 0, errors.New("injected write failure (the read side stays quiet)")
+}
+
+// writeFails: the first connection of the client cannot be written to; nothing arrives on it
+// either. The call must fail (not wait for a time-out that may not exist) and the client must
+// recover on a new connection.
+func writeFails(c *h.Case, kind string, m mode) {
+	r := c.R
+	hk := hooksFor(kind)
+	hk.reset()
+	markBaseline()
+	hk.setYield(nil)
+	p, err := healthyPeer(kind)
+	if err != nil {
+		r.Inconclusive(err.Error())
+		return
+	}
+	defer p.close()
+	client := core.NewClient(p.url)
+	var first int32
+	wrap := func(conn net.Conn) net.Conn {
+		if atomic.AddInt32(&first, 1) == 1 {
+			return &brokenWriter{conn}
+		}
+		return conn
+	}
+	switch kind {
+	case "tcp", "unix":
+		client.GetTransport("socket").(*socket.Transport).OnConnect = wrap
+	case "udp":
+		client.GetTransport("udp").(*udp.Transport).OnConnect = wrap
+	}
+	rep := map[string]interface{}{"transport": kind, "fault": "write-fails", "mode": m.name}
+	sigBase := kind + ":write-fails"
+	ctx, after := m.prepare(client)
+	ch := startCall(client, ctx, []byte("the request body under test"))
+	go after()
+	judge(c, sigBase, m, false, ch, rep)
+	recoverCheck(c, client, sigBase, rep)
+	quiesce(c, kind, client, sigBase, rep, 0)
+	r.Distinct("write-fails|" + kind + "|" + m.name)
 }
